@@ -97,8 +97,14 @@ impl Number {
     /// converting the resulting BigRational into the most appropriate
     /// Number type.
     pub fn parse_rational(text: &str, radix: u32) -> Option<Number> {
+        // The denominator of a ratio carries no sign: 1/-2 is not a number
+        if let Some((_, denominator)) = text.split_once('/') {
+            if denominator.starts_with(['+', '-']) {
+                return None;
+            }
+        }
         // Parsed with unbounded integers: the 32 bit rational parser overflows on
-        // spellings such as 1/-2147483648 while reducing them.
+        // spellings such as -1/2147483648 while reducing them.
         BigRational::from_str_radix(text, radix)
             .ok()
             .map(Number::from_big_rational)
